@@ -258,3 +258,20 @@ check("C09", "model_checking",
       "start-up order is the harness's copy of node.go; three findings fixed",
       "TLA+ durable-step model + TLC-exported crash schedules on a real node over a crash-injecting database + TLC trace validation",
       "DESIGN.md#c09")
+
+check("C15", "model_checking",
+      "ContractTx.tla specifies the transaction envelope around an OPAQUE contract run (Escrow, Run with buffered sends / burns / store "
+      "writes / stake moves / sub-calls / sub-deployments, Commit or Rollback + refund, Charge) with the clauses NoOverspend, "
+      "ReceiptTruthful, OutcomeAgrees, FailLeavesNoTrace, SuccessAppliesAll (+ ReqAgree), GasWithinBought, FeeWithinMax, PaysForItself, "
+      "Conserved over exact amounts (BigNatC); TLC checks the bounded envelope model (and that four deliberately broken envelopes violate "
+      "it); ContractOps.tla is the operation alphabet over a lifecycle abstraction (every method of the five embedded contracts, the five "
+      "bundled wasm contracts and a hand-assembled 'payer' wasm contract x argument / amount / gas classes x caller role x pair kind) "
+      "whose transitions TLC exports; each scenario runs on a REAL chain, what the contract code asked for is recorded by shadow "
+      "environments (embedded env.Env probe, wasm HostEnv wrapper), and TLC validates every recorded transaction against "
+      "Trace_ContractTx on observed pre/post ledgers.",
+      "quick: 80k envelope states, 1100 sampled scenarios + 30 walks (~1560 contract transactions); thorough: 1.46M states, 14 000 "
+      "scenarios + 400 walks (~22 600 transactions) incl. the 30 400-block wait before an oracle voting can be terminated; contract "
+      "business rules are opaque (only 'termination wipes the store except keysToSave' is specified); a successful wasm sub-deployment is "
+      "unreachable with the bundled contracts; one finding fixed (oracle-voting termination aliasing the live balance)",
+      "TLA+ envelope model + TLC-exported operation scenarios on a real chain with recording contract environments + TLC trace validation",
+      "DESIGN.md#c15")
